@@ -207,6 +207,41 @@ func c07SynthFamily(k int) (string, []c07SynthInput) {
 			out = append(out, c07SynthInput{fmt.Sprintf("dataset-datatype:%s:depth%d", kind, d), synthFile([][]byte{root, dsHdr})})
 		}
 		return "dataset-datatype:" + kinds[k-len(kinds)], out
+	case k == 2*len(kinds): // version 1 object headers with messages at the 16-bit edge of the size field
+		for _, S := range []int{32768, 65512, 65520, 65521, 65524, 65528, 65529, 65532, 65535} {
+			for _, order := range []int{0, 1, 2, 3} {
+				nmsgs := 2
+				if order >= 2 {
+					nmsgs = 65535 // the declared number of messages at its maximum
+				}
+				msg := func(typ, size int, body []byte) []byte {
+					out := append(le16(typ), le16(size)...)
+					out = append(out, 0, 0, 0, 0)
+					out = append(out, body...)
+					for len(out)%8 != 0 {
+						out = append(out, 0)
+					}
+					return out
+				}
+				big := msg(0, S, make([]byte, S)) // NIL message
+				li := msg(2, 18, append(append([]byte{0, 0}, le64(c07Undef)...), le64(c07Undef)...))
+				var msgs []byte
+				if order%2 == 0 {
+					msgs = append(append(msgs, big...), li...)
+				} else {
+					msgs = append(append(msgs, li...), big...)
+				}
+				hdr := []byte{1, 0}
+				hdr = append(hdr, le16(nmsgs)...)
+				hdr = append(hdr, le32(1)...)
+				hdr = append(hdr, le32(len(msgs))...)
+				hdr = append(hdr, 0, 0, 0, 0) // alignment of the first message
+				hdr = append(hdr, msgs...)
+				hdr = append(hdr, make([]byte, 4096)...) // readers fetch fixed-size prefixes
+				out = append(out, c07SynthInput{fmt.Sprintf("v1-header:message-size%d:order%d", S, order), synthFile([][]byte{hdr})})
+			}
+		}
+		return "v1-header:message-sizes", out
 	default: // chains of nested groups
 		for _, d := range []int{4, 32, 200, 1000, 4000} {
 			// every group header has the same length except the last (no link)
@@ -226,7 +261,7 @@ func c07SynthFamily(k int) (string, []c07SynthInput) {
 	}
 }
 
-const c07SynthFamilies = 15
+const c07SynthFamilies = 16
 
 // C07SynthWrite writes every structural input into dir (debugging aid).
 func C07SynthWrite(dir string) []string {
